@@ -1,5 +1,9 @@
 /-
 Lemmas.CheckParse — `check = parse` with the value forgotten, for every node (S3).
+
+`check` runs on the check copies of the loops (`seqLoopC`, `choiceLoopC`, `repLoopC`, `arrayLoopC`,
+`skipLoopC`, `repUnitC`), `parse` on the parse copies; the loop cases go through the agreement
+lemmas `*LoopC_eq` of `Lemmas/Agree.lean`, instantiated with the induction hypothesis.
 -/
 import PestTyped.Lemmas.Agree
 namespace PestTyped
@@ -36,22 +40,18 @@ theorem check_eq_parse_forget (g : NodeGrammar) (uni : Uni) :
         · rw [hc, hp]; rfl
         · rw [hc, hp]
           simp only []
-          have := seqLoop_forget (check g uni n inh) (parse g uni n inh)
-            (fun i m => skipLoop (check g uni n false g.skipped) (skipCount sk inh) i m [])
+          rw [seqLoopC_eq (check g uni n inh) (parse g uni n inh)
+            (skipLoopC (check g uni n false g.skipped) (skipCount sk inh))
             (fun i m => skipLoop (parse g uni n false g.skipped) (skipCount sk inh) i m [])
-            (fun _ a => a) mkSkipped (ihf inh)
-            (fun i m => skipLoop_forget _ _ (ihf false g.skipped) _ _ _ _ _) ns i' m' [] []
-          rcases forget_eq_cases this with ⟨hc, hp⟩ | ⟨m'', hc, hp⟩ | ⟨i'', m'', a, b, hc, hp⟩
-          · rw [hc, hp]; rfl
-          · rw [hc, hp]; rfl
-          · rw [hc, hp]; rfl
+            mkSkipped (ih inh)
+            (fun i m => skipLoopC_eq _ _ (ih false g.skipped) _ _ _ _) ns i' m' []]
+          cases seqLoop (parse g uni n inh)
+            (fun i m => skipLoop (parse g uni n false g.skipped) (skipCount sk inh) i m [])
+            mkSkipped ns i' m' [] <;> rfl
     | choice alts =>
       simp only [check, parse]
-      rcases forget_eq_cases (choiceLoop_forget (check g uni n inh) (parse g uni n inh) (ihf inh) alts 0 i m)
-        with ⟨hc, hp⟩ | ⟨m', hc, hp⟩ | ⟨i', m', a, b, hc, hp⟩
-      · rw [hc, hp]; rfl
-      · rw [hc, hp]; rfl
-      · rw [hc, hp]; rfl
+      rw [choiceLoopC_eq (check g uni n inh) (parse g uni n inh) (ih inh) alts 0 i m]
+      cases choiceLoop (parse g uni n inh) alts 0 i m <;> rfl
     | opt x =>
       simp only [check, parse]
       rcases forget_eq_cases (ihf inh x i m) with ⟨hc, hp⟩ | ⟨m', hc, hp⟩ | ⟨i', m', a, b, hc, hp⟩
@@ -60,43 +60,18 @@ theorem check_eq_parse_forget (g : NodeGrammar) (uni : Uni) :
       · rw [hc, hp]; rfl
     | rep sk min max x =>
       simp only [check, parse]
-      have hu : ∀ idx i m,
-          (repUnitC (check g uni n false g.skipped) (check g uni n inh x) (skipCount sk inh) idx i m).forget =
-          (repUnitP (parse g uni n false g.skipped) (parse g uni n inh x) (defaultSkipVal g)
-            (skipCount sk inh) idx i m).forget := by
-        intro idx i m
-        unfold repUnitC repUnitP
-        by_cases h0 : idx = 0
-        · simp only [h0, if_true, skipLoop, List.reverse_nil]
-          rcases forget_eq_cases (ihf inh x i m) with ⟨hc, hp⟩ | ⟨m', hc, hp⟩ | ⟨i', m', a, b, hc, hp⟩
-          · rw [hc, hp]; rfl
-          · rw [hc, hp]; rfl
-          · rw [hc, hp]; rfl
-        · simp only [h0, if_false]
-          rcases forget_eq_cases (skipLoop_forget _ _ (ihf false g.skipped) (skipCount sk inh) i m ([] : List Unit) ([] : List Val))
-            with ⟨hc, hp⟩ | ⟨m', hc, hp⟩ | ⟨i', m', a, b, hc, hp⟩
-          · rw [hc, hp]; rfl
-          · rw [hc, hp]; rfl
-          · rw [hc, hp]
-            simp only []
-            rcases forget_eq_cases (ihf inh x i' m') with ⟨hc, hp⟩ | ⟨m'', hc, hp⟩ | ⟨i'', m'', a, b, hc, hp⟩
-            · rw [hc, hp]; rfl
-            · rw [hc, hp]; rfl
-            · rw [hc, hp]; rfl
-      rcases forget_eq_cases (repLoop_forget _ _ hu min max n 0 i m ([] : List Unit) ([] : List Val))
-        with ⟨hc, hp⟩ | ⟨m', hc, hp⟩ | ⟨i', m', a, b, hc, hp⟩
-      · rw [hc, hp]; rfl
-      · rw [hc, hp]; rfl
-      · rw [hc, hp]; rfl
+      rw [repLoopC_eq0 _ _
+        (repUnitC_eq (check g uni n false g.skipped) (check g uni n inh x)
+          (parse g uni n false g.skipped) (parse g uni n inh x) (defaultSkipVal g) (skipCount sk inh)
+          (ih false g.skipped) (ih inh x)) min max n i m]
+      cases repLoop (repUnitP (parse g uni n false g.skipped) (parse g uni n inh x)
+        (defaultSkipVal g) (skipCount sk inh)) min max n 0 i m [] <;> rfl
     | atomicRepeat x =>
       simp only [check, parse]
-      rcases forget_eq_cases (repLoop_forget (fun _ i m => check g uni n inh x i m)
-          (fun _ i m => parse g uni n inh x i m) (fun _ i m => ihf inh x i m) 0 none (atomicBudget n) 0 i
-          { m with trk := Tracker.new i } ([] : List Unit) ([] : List Val))
-        with ⟨hc, hp⟩ | ⟨m', hc, hp⟩ | ⟨i', m', a, b, hc, hp⟩
-      · rw [hc, hp]; rfl
-      · rw [hc, hp]; rfl
-      · rw [hc, hp]; rfl
+      rw [repLoopC_eq0 (fun _ i m => check g uni n inh x i m) (fun _ i m => parse g uni n inh x i m)
+        (fun _ i m => ih inh x i m) 0 none (atomicBudget n) i { m with trk := Tracker.new i }]
+      cases repLoop (fun _ i m => parse g uni n inh x i m) 0 none (atomicBudget n) 0 i
+        { m with trk := Tracker.new i } [] <;> rfl
     | pos x =>
       simp only [check, parse]
       rcases forget_eq_cases (ihf inh x i { m with trk := { m.trk with positive := true } })
@@ -158,11 +133,8 @@ theorem check_eq_parse_forget (g : NodeGrammar) (uni : Uni) :
           · rw [hc, hp]; rfl
     | array k x =>
       simp only [check, parse]
-      rcases forget_eq_cases (arrayLoop_forget _ _ (ihf inh x) k i m ([] : List Unit) ([] : List Val))
-        with ⟨hc, hp⟩ | ⟨m', hc, hp⟩ | ⟨i', m', a, b, hc, hp⟩
-      · rw [hc, hp]; rfl
-      · rw [hc, hp]; rfl
-      · rw [hc, hp]; rfl
+      rw [arrayLoopC_eq_tryInto _ _ (ih inh x) k i m]
+      cases arrayTryInto k (arrayLoop (parse g uni n inh x) k i m []) <;> rfl
     | pair a b =>
       simp only [check, parse]
       rcases forget_eq_cases (ihf inh a i m) with ⟨hc, hp⟩ | ⟨m', hc, hp⟩ | ⟨i', m', va, vb, hc, hp⟩
